@@ -2,6 +2,8 @@
 package checks
 
 import (
+	"os"
+	"strings"
 	"context"
 	"errors"
 	"fmt"
@@ -133,6 +135,7 @@ func runSched(c *check.Ctx, scn *schedScenario, prop string, events []string, or
 		c.Rep.Traces += st.Executions
 		c.Rep.Nontrivial += st.NonDefault
 		c.Rep.Extra["event_positions"] += int64(st.EventsTried)
+		c.Rep.Extra["execs["+base.Name+"|"+ev+"]"] += st.Executions
 		for k, v := range st.Outcomes {
 			c.Rep.Outcomes[base.Name+"|"+ev+"|"+k] += v
 		}
@@ -225,20 +228,78 @@ func init() {
 		}
 	})
 	check.Register("C14/sched", func(c *check.Ctx) {
+		allEvents := map[string]bool{"S1": true, "S4a": true, "S6a": true}
 		for _, s := range catalogue() {
 			s := s
-			if s.DQuick > 1 {
-				s.DQuick = 1
+			id := s.Name[:strings.Index(s.Name, ":")]
+			if id == "S9a" || id == "S9b" || id == "S12" {
+				continue // 31-step traces: covered by the 12-step variants below
 			}
-			if s.Case.W.NSteps() < 12 && s.Name[:2] != "S2" {
+			if id == "S10" && !c.Thorough() {
+				// the distributed plan has ~3x the threads: keep its 2-step window
+				s.DQuick = 1
+				runSched(c, &s, "C14", []string{"ctx-cancel"}, cancelOracle)
+				continue
+			}
+			s.DQuick, s.DThorough = 1, 2
+			if id == "S13" || id == "S3" || id == "S10" {
+				s.DThorough = 1
+			}
+			if s.Case.W.NSteps() < 12 && id != "S2" && id != "S11" {
 				// the partial-result symptom needs an earlier batch to have been delivered
 				s.Case.W = core.Range(10000, 30000, 12)
 				s.Case.Data = gen.SchedData(14)
 			}
-			runSched(c, &s, "C14", []string{"ctx-cancel", "query-cancel", "query-close"}, cancelOracle)
+			events := []string{"ctx-cancel"}
+			if allEvents[id] {
+				events = []string{"ctx-cancel", "query-cancel", "query-close"}
+			}
+			runSched(c, &s, "C14", events, cancelOracle)
 			if c.Expired() || c.Rep.HarnessErr != "" {
 				return
 			}
 		}
+		// a context that is already cancelled when Exec starts
+		for _, s := range catalogue()[:6] {
+			s := s
+			s.PreCancel = true
+			s.DQuick, s.DThorough = 1, 2
+			runSched(c, &s, "C14", nil, func(root *explore.Obs) func(o *explore.Obs, sd explore.Sched) (string, string) {
+				return func(o *explore.Obs, sd explore.Sched) (string, string) {
+					if sym, det := baseOracle(o); sym != "" {
+						return sym, det
+					}
+					if o.ExecErr == nil || !errors.Is(o.ExecErr, context.Canceled) {
+						return "precancel:not-canceled", fmt.Sprintf("err=%v result=%s", o.ExecErr, o.Res)
+					}
+					return "", ""
+				}
+			})
+		}
 	})
+}
+
+func init() {
+	check.Replayers["sched"] = func(f *check.Failure) (string, string) {
+		root := explore.RunOnce(&explore.Scenario{Name: f.Scenario.Name, Case: f.Scenario.Case, Two: f.Scenario.Two, PoolPoints: f.Scenario.PoolPoints,
+			YieldPoints: f.Scenario.YieldPoints, StoreYield: f.Scenario.StoreYield}, explore.Sched{EventStep: -1})
+		o := explore.RunOnce(f.Scenario, *f.Sched)
+		fmt.Printf("scenario %s query %q event %q schedule %+v\n", f.Scenario.Name, f.Scenario.Case.Q, f.Scenario.Event, *f.Sched)
+		fmt.Printf("default schedule: %s\nthis schedule:    %s (err=%v) cancelRan=%v deadlock=%v blocked=%v panics=%d steps=%d\n", root.Res, o.Res, o.ExecErr, o.CancelRan, o.Run.Deadlock, o.Run.BlockedOps, len(o.Panics), len(o.Run.Trace))
+		for _, p := range o.Panics {
+			fmt.Printf("goroutine-top panic at %s: %s\n", p.Where, p.Val)
+		}
+		if os.Getenv("VERIF_TRACE") != "" {
+			for i, s := range o.Run.Trace {
+				fmt.Printf("  %3d t%-2d %-8s alt %d/%d\n", i, s.Tid, s.Kind, s.Chosen, s.NAlt)
+			}
+		}
+		var orc func(o *explore.Obs, s explore.Sched) (string, string)
+		if f.Scenario.Event != "" {
+			orc = cancelOracle(root)
+		} else {
+			orc = sameAsRoot(root)
+		}
+		return orc(o, *f.Sched)
+	}
 }
